@@ -167,11 +167,19 @@ func (c *collection) CreateIndex(
 	}
 	defer txn.Discard(ctx)
 
+	// the collection caches its indexes: a failed call must not leave an index in the cache
+	// that was never committed
+	prevIndexes, prevDescriptions := slices.Clone(c.indexes), slices.Clone(c.def.Version.Indexes)
+
 	index, err := c.createIndex(ctx, desc)
+	if err == nil {
+		err = txn.Commit(ctx)
+	}
 	if err != nil {
+		c.indexes, c.def.Version.Indexes = prevIndexes, prevDescriptions
 		return client.IndexDescription{}, err
 	}
-	return index.Description(), txn.Commit(ctx)
+	return index.Description(), nil
 }
 
 func processCreateIndexRequest(
@@ -348,11 +356,19 @@ func (c *collection) DropIndex(ctx context.Context, indexName string) error {
 	}
 	defer txn.Discard(ctx)
 
+	// the collection caches its indexes: a failed call must not drop an index from the cache
+	// that is still stored
+	prevIndexes, prevDescriptions := slices.Clone(c.indexes), slices.Clone(c.def.Version.Indexes)
+
 	err = c.dropIndex(ctx, indexName)
+	if err == nil {
+		err = txn.Commit(ctx)
+	}
 	if err != nil {
+		c.indexes, c.def.Version.Indexes = prevIndexes, prevDescriptions
 		return err
 	}
-	return txn.Commit(ctx)
+	return nil
 }
 
 func (c *collection) dropIndex(ctx context.Context, indexName string) error {
